@@ -144,6 +144,32 @@ def run(cx):
             e = match('(unwrap (call Triangle::normal $f))', nm)
             ok = ok and e is not None and match('(itervar (call TriMesh::triangles (field shape (param self))))', e['f']) is not None and find('(field a $f)', pt, e) is not None
         cx.ob('EXPR', 'sample_dense:normal', ok, 'each dense sample (centre or lattice point) is computed from, and carries the normal of, the face being iterated', where=b.file)
+    # the lattice of sample_dense: origin and both edge vectors come from the SAME corner of the face
+    b = cx.fn(f'{M}::sample_dense')
+    if b:
+        dag = b.dag()
+        anchors = {}
+        for bi in b.live:
+            if bi not in b.reachable():
+                continue
+            vals = []
+            for si, st in enumerate(b.blocks[bi]['stmts']):
+                if st['pl']['p'] or st['rv']['k'] != 'use':
+                    continue
+                vals.append(simplify(dag.rvalue(st['rv'], bi, si)))
+            def corner(v):
+                return v[1] if (v[0] == 'field' and v[1] in ('a', 'b', 'c') and match('(itervar (call TriMesh::triangles _))', v[2]) is not None) else None
+            pts = [corner(v) for v in vals if corner(v)]
+            subs = [(corner(v[2]), corner(v[3])) for v in vals if v[0] == 'call' and v[1] == 'OPoint::sub' and len(v) == 4 and corner(v[2]) and corner(v[3])]
+            if len(pts) == 1 and len(subs) == 2:
+                anchors[bi] = (pts[0], sorted(subs))
+        okl = len(anchors) == 3 and {a for a, _ in anchors.values()} == {'a', 'b', 'c'} and \
+            all(all(pp == a for _, pp in ss) and sorted(x for x, _ in ss) == sorted({'a', 'b', 'c'} - {a}) for a, ss in anchors.values())
+        lat = [d for s_, d in cx.push_events(b) if find('(call OPoint::add (call OPoint::add _ (call Matrix::mul _ _)) (call Matrix::mul _ _))', d) is not None]
+        inside = any(cx.guarded(b, s_.bb, '(le (add _ _) 1.0)', True) is not None for s_, d in cx.push_events(b) if find('(call OPoint::add (call OPoint::add _ _) _)', d) is not None)
+        cx.ob('EXPR', 'sample_dense:lattice', okl and len(lat) == 1 and inside,
+              'the sampling lattice p + u*s + v*t (s + t <= 1) takes its origin p and both edge vectors u = x - p, v = y - p from ONE corner of the face, for each of the three corner choices',
+              where=b.file, found=str({k: v for k, v in anchors.items()}))
     b = cx.fn(f'{M}::sample_poisson')
     if b:
         r = cx.retval(b)
